@@ -247,6 +247,17 @@ Definition check_topo (sgs : list Circuit) : bool := bool_decide (topo_ok sgs).
 Definition check_all (L : circuit) (sgs : list Circuit) : bool :=
   check_shape L sgs && check_independent L sgs && check_cover L sgs && check_topo sgs.
 
+(* decidable form of the hypotheses of the theorems about the model (Properties/C17.v, wf_lim): closed, acyclic by a rank
+   certificate, at most two operands, constants and inputs undriven, gates driven, no blackbox pins *)
+Definition rank_cert (c : circuit) : gmap string nat :=
+  Nat.iter (S (size c)) (λ r, map_imap (λ n i, Some (set_fold (λ f acc, max acc (S (default 0 (r !! f)))) 0 (n_fi i))) c) ∅.
+Definition wf_limb (L : circuit) : bool :=
+  let r := rank_cert L in
+  bool_decide (map_Forall (λ n i,
+     n_fi i ⊆ dom L ∧ set_Forall (λ f, default 0 (r !! f) < default 0 (r !! n)) (n_fi i) ∧
+     size (n_fi i) ≤ 2 ∧ (is_const (n_ty i) = true → n_fi i = ∅) ∧
+     (n_ty i ≠ Input → is_const (n_ty i) = false → n_fi i ≠ ∅) ∧ (n_ty i = Input → n_fi i = ∅)) L).
+
 (* the property, declaratively (DESIGN.md appendix C, C17_supergates) *)
 Definition sg_spec (L : circuit) (sgs : list Circuit) : Prop :=
   Forall (λ sg, size (outputs (c_g sg)) = 1 ∧
